@@ -310,14 +310,15 @@ theorem validation_store_ids (cfg : Cfg) (reqH : Header) (key : Str) (stored : E
           subst ht
           right
           refine ⟨r, t1, bodyOk, rfl, Or.inr ?_⟩
-          rcases hw with hw | ⟨en', hw⟩ | ⟨en', rs, ok', hw, _, _⟩
+          rcases hw with hw | ⟨en', hw⟩ | ⟨en', rs, ok', post, hw, _, _, hpost⟩
           · subst hw; cases hm
           · subst hw
             simp only [List.mem_cons, Step.setEntry.injEq, List.not_mem_nil, or_false] at hm
             exact hm.1
           · subst hw
-            simp only [List.mem_cons, Step.setEntry.injEq, reduceCtorEq, List.not_mem_nil, or_false] at hm
-            exact hm.1
+            rcases hpost with hp | ⟨old, hp, _⟩ <;> subst hp <;>
+              simp only [List.cons_append, List.nil_append, List.mem_cons, Step.setEntry.injEq, reduceCtorEq, List.not_mem_nil, or_false] at hm <;>
+              exact hm.1
         · cases h with
           | setEntry ok' h1 =>
             cases h1
@@ -332,15 +333,128 @@ theorem validation_store_ids (cfg : Cfg) (reqH : Header) (key : Str) (stored : E
           subst ht
           right
           refine ⟨r, t1, bodyOk, rfl, Or.inl ?_⟩
-          rcases hw with hw | ⟨en', hw⟩ | ⟨en', rs, ok', hw, _, _⟩
+          rcases hw with hw | ⟨en', hw⟩ | ⟨en', rs, ok', post, hw, _, _, hpost⟩
           · subst hw; cases hm
           · subst hw
             simp only [List.mem_cons, Step.setEntry.injEq, List.not_mem_nil, or_false] at hm
             exact hm.1
           · subst hw
-            simp only [List.mem_cons, Step.setEntry.injEq, reduceCtorEq, List.not_mem_nil, or_false] at hm
-            exact hm.1
+            rcases hpost with hp | ⟨old, hp, _⟩ <;> subst hp <;>
+              simp only [List.cons_append, List.nil_append, List.mem_cons, Step.setEntry.injEq, reduceCtorEq, List.not_mem_nil, or_false] at hm <;>
+              exact hm.1
         · cases h; cases hm
 
+/-! ### no stored response is left behind by a store -/
+
+/-- a reference of the old index is still in the list after `placeRef`, or it is the one that was overwritten -/
+theorem mem_refs_placeRef (refs : List Ref) (ri : Option Nat) (ref x : Ref) (hx : x ∈ refs) :
+    x ∈ (placeRef refs ri ref).1 ∨ replacedId refs ri = some x.id := by
+  unfold placeRef replacedId
+  cases ri with
+  | none => left; simp [hx]
+  | some i =>
+    simp only
+    by_cases hi : i < refs.length
+    · simp only [hi, ↓reduceIte]
+      obtain ⟨j, hj, e⟩ := List.getElem_of_mem hx
+      by_cases hji : j = i
+      · right
+        subst hji
+        rw [List.getElem?_eq_getElem hj, e]; rfl
+      · left
+        rw [List.mem_iff_getElem]
+        refine ⟨j, by simpa using hj, ?_⟩
+        rw [List.getElem_set_ne (fun h => hji h.symm)]
+        exact e
+    · left; simp [hi, hx]
+
+/-- a reference that `dedupeRefs` drops describes the new reference's variant: the new reference, which stays,
+    names the same stored response -/
+theorem mem_dedupe_or_same (refs : List Ref) (idx : Nat) (ref x : Ref) (hx : x ∈ refs) :
+    x ∈ dedupeRefs refs idx ref ∨ sameVariant x ref = true := by
+  by_cases hs : sameVariant x ref = true
+  · exact Or.inr hs
+  · left
+    unfold dedupeRefs
+    obtain ⟨j, hj, e⟩ := List.getElem_of_mem hx
+    rw [List.mem_map]
+    refine ⟨(x, j), ?_, rfl⟩
+    rw [List.mem_filter]
+    refine ⟨?_, by simp [hs]⟩
+    rw [List.mem_zipIdx_iff_getElem?]
+    simp [List.getElem?_eq_getElem hj, e]
+
+/-- a reference of the old index: its response is named by the new index, or it was the overwritten reference
+    and nothing in the new index names its response -/
+theorem named_or_replaced (refs : List Ref) (ri : Option Nat) (ref x : Ref) (hx : x ∈ refs) :
+    (∃ y ∈ dedupeRefs (placeRef refs ri ref).1 (placeRef refs ri ref).2 ref, y.id = x.id) ∨
+    (replacedId refs ri = some x.id ∧ ∀ y ∈ dedupeRefs (placeRef refs ri ref).1 (placeRef refs ri ref).2 ref, y.id ≠ x.id) := by
+  by_cases hex : ∃ y ∈ dedupeRefs (placeRef refs ri ref).1 (placeRef refs ri ref).2 ref, y.id = x.id
+  · exact Or.inl hex
+  · right
+    have hall : ∀ y ∈ dedupeRefs (placeRef refs ri ref).1 (placeRef refs ri ref).2 ref, y.id ≠ x.id :=
+      fun y hy e => hex ⟨y, hy, e⟩
+    refine ⟨?_, hall⟩
+    rcases mem_refs_placeRef refs ri ref x hx with hp | hp
+    · exfalso
+      rcases mem_dedupe_or_same _ (placeRef refs ri ref).2 ref x hp with hd | hd
+      · exact hall x hd rfl
+      · have hself := mem_dedupe_self _ _ _ (placeRef_get refs ri ref)
+        unfold sameVariant at hd
+        simp only [Bool.and_eq_true, decide_eq_true_eq] at hd
+        exact hall _ hself hd.1.1.symm
+    · exact hp
+
+/-- the clean-up deletes the overwritten reference's response when the index write succeeded and nothing names it -/
+theorem dropReplaced_deletes (refs nr : List Ref) (ri : Option Nat) (k : Prog) (tr : List Step) (res : Result) (old : Str)
+    (hrep : replacedId refs ri = some old) (hne : old ≠ []) (hall : ∀ y ∈ nr, y.id ≠ old)
+    (h : Run (dropReplaced refs nr ri true k) tr res) : ∃ tr', tr = Step.delete old :: tr' := by
+  unfold dropReplaced at h
+  rw [hrep] at h
+  simp only at h
+  have h1 : old.isEmpty = false := by cases hxi : old with
+    | nil => exact absurd hxi hne
+    | cons c cs => rfl
+  have h2' : (nr.any fun y => decide (y.id = old)) = false := by
+    rw [List.any_eq_false]; intro y hy; simpa using hall y hy
+  simp only [h1, h2', Bool.not_false, Bool.and_self, ↓reduceIte] at h
+  cases h with
+  | delete h3 => exact ⟨_, rfl⟩
+
+/-- StoreResponse leaves no stored response behind. When the entry write and the index write both succeed,
+    every response the OLD index named (by a non-empty identifier) is named by the NEW index or is deleted in
+    the same call: the overwritten reference's response, once no reference names it, is removed. Together
+    with `invalidate_complete` this is what keeps every entry key reachable from its index. -/
+theorem store_leaves_no_orphan (cfg : Cfg) (reqH : Header) (r : Resp) (b : Bool) (key : Str)
+    (refs : List Ref) (t1 t2 : Int) (ri : Option Nat) (tr : List Step) (res : Result)
+    (h : Run (storeResponse cfg reqH r b key refs t1 t2 ri (fun r => .ret (.resp r))) tr res)
+    (k' : Str) (rs : List Ref) (hR : Step.setRefs k' rs true ∈ tr) :
+    ∀ x ∈ refs, x.id ≠ [] → (∃ y ∈ rs, y.id = x.id) ∨ Step.delete x.id ∈ tr := by
+  intro x hx hne
+  unfold storeResponse at h
+  simp only [] at h
+  split at h
+  · cases h; cases hR
+  · cases h with
+    | setEntry ok h1 =>
+      dsimp only at h1
+      split at h1
+      · cases h1; simp at hR
+      · cases h1 with
+        | setRefs ok2 h2 =>
+          dsimp only at h2
+          generalize hrf : (Ref.mk _ _ _ _) = rf at h2 hR
+          -- the index written, and its success flag, are the ones of the only setRefs step
+          have hrs : rs = dedupeRefs (placeRef refs ri rf).1 (placeRef refs ri rf).2 rf ∧ true = ok2 := by
+            rcases dropReplaced_run _ _ _ _ _ _ _ h2 with hk | ⟨old, tr', e, hk, _⟩
+            · cases hk; simp at hR; exact ⟨hR.2.1, hR.2.2.symm⟩
+            · subst e; cases hk; simp at hR; exact ⟨hR.2.1, hR.2.2.symm⟩
+          obtain ⟨hrs1, hok⟩ := hrs
+          subst hok
+          rcases named_or_replaced refs ri rf x hx with hn | ⟨hrep, hall⟩
+          · left; rw [hrs1]; exact hn
+          · right
+            obtain ⟨tr', e⟩ := dropReplaced_deletes _ _ _ _ _ _ _ hrep hne hall h2
+            rw [e]; simp
 
 end Httpcache
